@@ -345,7 +345,10 @@ class Interp:
         # --- conditions
         elif op == 'set_flag':
             ev(name, idx, 'set_begin', (st['i'], bool(st['v'])))
-            await self.flags[st['i']].set(bool(st['v']))
+            if st.get('inv'):
+                await (~self.flags[st['i']]).set(not st['v'])        # the same change made through the inverse
+            else:
+                await self.flags[st['i']].set(bool(st['v']))
             ev(name, idx, 'ok')
         elif op == 'tset':
             ev(name, idx, 'tset_begin', (st['i'], st['v']))
